@@ -518,7 +518,7 @@ Section Marshal.
     { intros _ Hn s He.
       pose proof (export_class O f raw (VStr s) He (to_gval_nonnil _ Hn) ltac:(discriminate)) as Hcl.
       destruct Hf as [->|[->|[->|[->| ->]]]]; cbn [class_val] in Hcl; destruct Hcl as [x Hx]; try discriminate Hx.
-      - injection Hx as ->. apply pl_bytes_ok, pl_fmt_rfc3339.
+      - destruct Hx as [Hx _]. injection Hx as ->. apply pl_bytes_ok, pl_fmt_rfc3339.
       - destruct Hx as [Hx Hd]. injection Hx as <-. apply pl_bytes_ok, date_shape_plain, Hd. }
     destruct Hf as [->|[->|[->|[->| ->]]]]; exact Hc.
   Qed.
